@@ -2,7 +2,7 @@
 # process_seeds.sh Cxx [Cyy ...]: for each patch_k: run the property's check on the patched private copy, confirm the seed, store it
 # SEEDRUN=/tmp/seedrun<lane> selects the private copy (tools/seedrun_setup.sh <lane>)
 SR=${SEEDRUN:-/tmp/seedrun}
-for pid in "$@"; do for k in 1 2 3 4 5 6 7 8 9 10; do
+for pid in "$@"; do for k in 1 2 3 4 5 6 7 8 9 10 11 12 13 14; do
   [ -f /tmp/mut/$pid/_out/patch_$k.diff ] || continue
   $SR/run.sh /tmp/mut/$pid/_out/patch_$k.diff $pid > $SR/proc_${pid}_$k.txt 2>&1
   if grep -q "^VIOLATION.*no-failing-input-found" $SR/last_$pid.log; then det=caught-no-input
